@@ -13,7 +13,7 @@ Inductive action :=
 | AService1 | AEndOfServiceError1 | AFunction1 | AFunctionType1 | AThrows1 | AFieldType1 | ABaseType1
 | ABaseTypeName1 | AContainerType1 | AMapType1 | ASetType1 | AListType1 | ACppType1 | ATypeAnnotations1
 | ATypeAnnotation8 | ATypeAnnotation1 | ABoolConstant1 | AIntConstant1 | ADoubleConstant1 | AConstList1
-| AConstMap1 | AScope1 | AEndOfScopeError1 | APrefix1 | AOperation1 | ALiteral1 | AIdentifier1 | ADocString1.
+| AConstMap1 | AScope1 | AEndOfScopeError1 | APrefix6 | APrefix1 | AOperation1 | ALiteral1 | AIdentifier1 | ADocString1.
 
 Definition action_table : list (string * action) := [
   ("Grammar1", AGrammar1); ("SyntaxError1", ASyntaxError1); ("Statement1", AStatement1);
@@ -29,7 +29,7 @@ Definition action_table : list (string * action) := [
   ("TypeAnnotation1", ATypeAnnotation1); ("BoolConstant1", ABoolConstant1);
   ("IntConstant1", AIntConstant1); ("DoubleConstant1", ADoubleConstant1); ("ConstList1", AConstList1);
   ("ConstMap1", AConstMap1); ("Scope1", AScope1); ("EndOfScopeError1", AEndOfScopeError1);
-  ("Prefix1", APrefix1); ("Operation1", AOperation1); ("Literal1", ALiteral1);
+  ("Prefix6", APrefix6); ("Prefix1", APrefix1); ("Operation1", AOperation1); ("Literal1", ALiteral1);
   ("Identifier1", AIdentifier1); ("DocString1", ADocString1) ]%string.
 
 Definition action_of_name (n : string) : option action :=
@@ -44,6 +44,7 @@ Inductive aerr :=
 | EParseInt (e : num_err)
 | EParseFloat (e : num_err)
 | EUnquote                     (* strconv.ErrSyntax from the Literal action *)
+| EEnumOverflow (e v : bytes)  (* "parser: enum %s: no value left for %s after %d" *)
 | EUnknownStatement.           (* "parser: unknown value ..." *)
 
 Definition frame := list (string * val).
@@ -90,16 +91,30 @@ Definition doc_comment (docstr : val) : option comment :=
 (** Go's [int] on the supported platforms: 64 bits, two's complement, [+] wraps around *)
 Definition wrap_int64 (x : Z) : Z := (x + 9223372036854775808) mod 18446744073709551616 - 9223372036854775808.
 
-(** the numbering loop of the Enum action (after the repair of the enum-numbering defect): a value
+(** the numbering loop of the Enum action (after the repairs of the enum-numbering defects): a value
     without an explicit number is the previous value plus one, the first is 0; explicit numbers
     are kept.  [next = ev.Value + 1] is Go [int] arithmetic: after 9223372036854775807 it wraps to
-    -9223372036854775808 (observed on the real parser; known finding C10-F22). *)
+    -9223372036854775808, which the loop notices ([overflow = next < ev.Value]) and reports as an
+    error when a value without an explicit number follows ([enum_overflow]); when it reports
+    nothing the values are [enum_number]'s. *)
 Fixpoint enum_number (vs : list (enum_value * bool)) (next : Z) : list enum_value :=
   match vs with
   | [] => []
   | (ev, explicit) :: t =>
     let v := if explicit then ev_value ev else next in
     mkev (ev_comment ev) (ev_name ev) v (ev_anns ev) :: enum_number t (wrap_int64 (v + 1))
+  end.
+
+(** the first value for which the loop returns its error, if any *)
+Fixpoint enum_overflow (vs : list (enum_value * bool)) (next : Z) (overflow : bool) : option bytes :=
+  match vs with
+  | [] => None
+  | (ev, explicit) :: t =>
+    if negb explicit && overflow then Some (ev_name ev)
+    else
+      let v := if explicit then ev_value ev else next in
+      let n := wrap_int64 (v + 1) in
+      enum_overflow t n (n <? v)
   end.
 
 Definition set_mod (m : Z) (f : field) : field :=
@@ -212,7 +227,10 @@ Definition run_action_opt (a : action) (srest : bytes) (n : Z) (fr : frame) : op
                                | VList (VEnumValue e :: VBool explicit :: _) => Some (e, explicit)
                                | _ => None
                                end) vs in
-    ok (VEnum (mkenum None name (enum_number evs 0) anns))
+    match enum_overflow evs 0 false with
+    | Some v => Some (AErr VNil (EEnumOverflow name v))
+    | None => ok (VEnum (mkenum None name (enum_number evs 0) anns))
+    end
   | AEnumValue1 =>
     let? name := as_ident (g "name"%string) in
     let? anns := to_anns (g "annotations"%string) in
@@ -347,8 +365,10 @@ Definition run_action_opt (a : action) (srest : bytes) (n : Z) (fr : frame) : op
     let? l := omap (fun v => let? x := first_of v in match x with VOperation o => Some o | _ => None end) ops in
     ok (VScope (mkscope c name p l anns))
   | AEndOfScopeError1 => Some (AErr VNil EEndOfScope)
+  | APrefix6 => ok (VStr (trim_space text))
   | APrefix1 =>
-    match new_scope_prefix (prefix_text text) with
+    let? p := as_str (g "prefix"%string) in
+    match new_scope_prefix p with
     | inl (s, vars) => ok (VPrefix (mkprefix s vars))
     | inr v => Some (AErr (VPrefix default_prefix) (EBadPrefixVar v))   (* Go: a nil *ScopePrefix *)
     end
